@@ -178,6 +178,17 @@ def check(prop, tier, seed):
             gen_res = gentie.gen_tie(prop, tier, random.Random(seed * 31 + 7))
         except Exception as ex:
             gen_res = {'status': 'error', 'reason': repr(ex)[:300]}
+        if prop == 'C12':
+            # the Cython sources have their own generated model (pyx → pyx2py → py2lean)
+            try:
+                gen_res['cython_sources'] = gentie.gen_tie_pyx(tier, random.Random(seed * 37 + 11))
+            except Exception as ex:
+                gen_res['cython_sources'] = {'status': 'error', 'reason': repr(ex)[:300]}
+            gp = gen_res['cython_sources']
+            if gp.get('status') != 'identical':
+                notes.append('generated-model tie (.pyx): %s — %s' % (gp.get('status'), gp.get('reason') or gp.get('note')))
+            if gp.get('status_validation'):
+                notes.append('generated-model tie (.pyx): ' + gp['status_validation'])
         if gen_res.get('status') != 'identical':
             notes.append('generated-model tie: %s — %s' % (gen_res.get('status'), gen_res.get('reason') or gen_res.get('note')))
         if gen_res.get('status_validation'):
